@@ -9,7 +9,7 @@ import gen
 
 TWINS = ['salt', 'weights']      # harness/twins.py: which part of a twin text carries the difference
 
-CHILDREN = {"quick": 6, "thorough": 48}
+CHILDREN = {"quick": 8, "thorough": 56}
 OPS = {"quick": 250, "thorough": 3000}
 
 
@@ -71,6 +71,12 @@ def history(ctx, nops):
             ops.append(["recompile", 2, text])
             for k in range(3):
                 ops.append(["call", 2, common.enc_env({"u": "unit%d" % rng.randrange(50)})])
+    # endurance: thousands of distinct units through one evaluator, then the first ones again (anything that remembers a
+    # bounded number of recent calls, counts uses or rotates state has by then wrapped around)
+    n_end = 1200 if nops <= 300 else 9000
+    ops.append(["new", 1, 'def endure { salt: "e" splitters: u, v return "a" weighted 1, "b" weighted 2, "c" weighted 3, "d" weighted 0, "e" weighted 1 }'])
+    for k in list(range(n_end)) + list(range(60)) + [n_end - 1, 4095, 4096, 4097, 1023, 1024, 255, 256]:
+        ops.append(["call", 1, common.enc_env({"u": "unit%d" % k, "v": k % 7})])
     # the wide program on every branch in turn (same evaluator, same call path, different weight data each time)
     for wide in progs[-2:]:
         ops.append(["new", 3, wide[1]])
@@ -106,6 +112,10 @@ def run(ctx, with_model=True):
     for i in range(nchild):
         e = {"PYTHONHASHSEED": seeds[i % len(seeds)], "C01_IMPORT_ORDER": "ab"[i % 2], "C01_FRESH": "1" if i == 1 else "0"}
         e.update(locales[(i // 2) % len(locales)])
+        # interpreter flags, clock, time zone: none of them is an input of the assignment
+        e.update([{}, {"PYTHONOPTIMIZE": "1"}, {"TZ": "Pacific/Kiritimati", "C01_FAKE_TIME": "4102444800"}, {"PYTHONOPTIMIZE": "2", "PYTHONUTF8": "1"},
+                  {"TZ": "America/Adak", "C01_FAKE_TIME": "951782400", "PYTHONDEVMODE": "1"}, {"C01_RECURSION": "5000", "PYTHONDONTWRITEBYTECODE": "1", "COLUMNS": "20"},
+                  {"PYTHONMALLOC": "malloc", "PYTHONNOUSERSITE": "1", "HOME": "/nonexistent", "USER": "nobody", "HOSTNAME": "h2"}][i % 7])
         matrix.append((e, cwds[i % len(cwds)]))
     from concurrent.futures import ThreadPoolExecutor
     with ThreadPoolExecutor(min(12, len(matrix))) as ex:
